@@ -2,7 +2,7 @@ SPECIFICATION FairSpec
 CONSTANTS
   NetParams <- MC_Quick
   MkNet <- NetOfParams
-  Questions <- TheQuestion
+  Questions <- TheQuestions
   NsLimit = 4
   RecLimit = 4
   MaxCname = 3
